@@ -23,6 +23,7 @@ MISSING = "missing_result(root_path)"
 # verify: failed (11) > new files (21) > single file not found (20) > missing (10) > success
 contract(
     "ascmhl.commands.verify_entire_folder",
+    slices=4,
     params={"root_path": "str", "verbose": "bool", "single_file": "str?", "packing_list_path": "str?", "ignore_list": "list[str]?",
             "ignore_spec_file": "str?", "calculate_only": "bool?"},
     start_at="exception = test_for_missing_files(",
